@@ -284,8 +284,20 @@ func (m *xdsResourceManager) UpdateResource(rt xdsresource.ResourceType, up map[
 	// should update xds updater first, as it may affect the traffic when the
 	// policy is updated at the first time.
 	if handlers, ok := m.xdsHandlers[rt]; ok {
+		// handlers treat the map as the complete set of the type. Responses of RDS/EDS
+		// may be partial, so merge the update into what is cached before handing it over.
+		view := up
+		if !rt.RequireFullADSResponse() {
+			view = make(map[string]xdsresource.Resource, len(m.cache[rt])+len(up))
+			for name, res := range m.cache[rt] {
+				view[name] = res
+			}
+			for name, res := range up {
+				view[name] = res
+			}
+		}
 		for _, handler := range handlers {
-			handler(up)
+			handler(view)
 		}
 	}
 
